@@ -119,12 +119,14 @@ int cp_pokdl_ver(const bn_t c, const bn_t r, const ec_t y) {
 		md_map(h, bin, sizeof(bin));
 		bn_read_bin(v, h, RLC_MD_LEN);
 		bn_mod(v, v, n);
-		if (bn_cmp(v, c) == RLC_EQ) {
+		if (bn_cmp(v, c) == RLC_EQ && bn_sign(r) == RLC_POS &&
+				bn_cmp(r, n) == RLC_LT) {
 			result = 1;
 		}
 	}
 	RLC_CATCH_ANY {
-		result = RLC_ERR;
+		/* An error never validates a proof. */
+		result = 0;
 	}
 	RLC_FINALLY {
 		bn_free(n);
@@ -250,9 +252,17 @@ int cp_pokor_ver(const bn_t c[2], const bn_t r[2], const ec_t y[2]) {
 		if (bn_is_zero(z)) {
 			result = 1;
 		}
+		/* Challenges and responses must be reduced modulo the order. */
+		for (int i = 0; i < 2; i++) {
+			if (bn_sign(c[i]) == RLC_NEG || bn_cmp(c[i], n) != RLC_LT ||
+					bn_sign(r[i]) == RLC_NEG || bn_cmp(r[i], n) != RLC_LT) {
+				result = 0;
+			}
+		}
 	}
 	RLC_CATCH_ANY {
-		result = RLC_ERR;
+		/* An error never validates a proof. */
+		result = 0;
 	}
 	RLC_FINALLY {
 		bn_free(n);
